@@ -794,7 +794,8 @@ def main(argv):
     prop = argv[1]
     if argv[2] == "--replay":
         return replay_file(prop, argv[3])
-    tier = os.environ.get("VERIF_TIER") or argv[2]
+    # the tier named on the command line wins; VERIF_TIER is the fallback
+    tier = argv[2] if argv[2] in ("quick", "thorough") else os.environ.get("VERIF_TIER", "quick")
     if tier not in ("quick", "thorough"):
         tier = "quick"
     seed = int(os.environ.get("VERIF_SEED", "0") or 0)
